@@ -1,4 +1,308 @@
-import NriModel.Basic
-/-! Property theorems for C16 — placeholder until the model is written. -/
+import NriModel.Lemmas.StubSession
+import NriModel.Lemmas.StubSessionTrace
+import NriModel.Lemmas.StubSessionAny
+/-!
+Property C16 — starting, stopping and restarting the stub terminates and leaves it usable.
+
+Theorems about the session machine `Nri.StubSession` (`NriModel/StubSession.lean`), variant
+`fixed` = `/repo/pkg/stub/stub.go` with `docs/fixes/C16-1.patch` applied. `Reach s`: `s` is
+reached from the initial state by ANY history of Start (with any behaviour of the runtime
+end except `stall`), Stop, Wait, connection loss, close notifications in any order and at
+any time, and requests from the runtime end. The `unfixed_*` theorems are witnesses on the
+transcription of the code before the patch.
+
+What is NOT proved here: bounded *time*. "Returns" means: the step is enabled and its
+result is not `blocked`; that the real calls return within a deadline is measured by the
+harness on every run.
+-/
 namespace Nri.Props.C16
+open Nri.StubSession
+
+/-- Start always returns: in every reachable state and for every behaviour of the runtime
+    end inside the domain, a `Start` call has a result, no possible result is `blocked`
+    (the stub is never wedged), the result is `ok` only if the runtime end delivered the
+    Configure request (scripts `ok`, `dropLate`), and then the stub is started with the new
+    session established; otherwise it is an error. -/
+theorem C16_start_returns {s : State} (hr : Reach s) (o : Script) (ho : o ≠ .stall) :
+    s.wedged = false ∧
+    (∃ r s', r ≠ .blocked ∧ step? fixed s (.start o r) = some s') ∧
+    (∀ s', step? fixed s (.start o .blocked) ≠ some s') ∧
+    (∀ r s', step? fixed s (.start o r) = some s' → r = .ok →
+        (o = .ok ∨ o = .dropLate) ∧ s'.started = true ∧ s'.cur = s.cur + 1 ∧ s'.cur ∈ s'.estab) := by
+  have hg := hr.good
+  have hw := hg.notWedged
+  refine ⟨hw, ?_, ?_, ?_⟩
+  · by_cases hs : s.started = true
+    · exact ⟨.err .already, s, by simp, by simp [step?, hw, startStep, hs]⟩
+    · have hs' : s.started = false := by simpa using hs
+      have hc := hg.connNone hs'
+      have hd : s.dials + 1 ∉ s.dead := by intro hm; have := hg.dead_rng _ hm; omega
+      cases o with
+      | dialFail => exact ⟨.err .dial, s, by simp, by simp [step?, hw, startStep, hs', hc]⟩
+      | refuse => exact ⟨.err .register, _, by simp, by simp [step?, hw, startStep, hs', hc, connDead, hd]; rfl⟩
+      | noAnswer => exact ⟨.err .register, _, by simp, by simp [step?, hw, startStep, hs', hc, connDead, hd]; rfl⟩
+      | dropReg => exact ⟨.err .register, _, by simp, by simp [step?, hw, startStep, hs', hc, connDead, hd]; rfl⟩
+      | dropCfg => exact ⟨.err .closed, _, by simp, by simp [step?, hw, startStep, hs', hc, connDead, hd, fixed]; rfl⟩
+      | dropLate => exact ⟨.ok, _, by simp, by simp [step?, hw, startStep, hs', hc, connDead, hd]; rfl⟩
+      | cfgErr => exact ⟨.err .configure, _, by simp, by simp [step?, hw, startStep, hs', hc, connDead, hd]; rfl⟩
+      | ok => exact ⟨.ok, _, by simp, by simp [step?, hw, startStep, hs', hc, connDead, hd]; rfl⟩
+      | stall => exact absurd rfl ho
+  · intro s' h
+    simp only [step?, hw] at h
+    rcases start_cases hg ho h with ⟨_, h1, _⟩ | ⟨_, _, h1, _⟩ | ⟨_, ⟨k, h1⟩, _⟩ | ⟨_, _, h1, _⟩ |
+      ⟨_, _, h1, _⟩ <;> cases h1
+  · intro r s' h hok
+    simp only [step?, hw] at h
+    rcases start_cases hg ho h with ⟨_, h1, _⟩ | ⟨_, _, h1, _⟩ | ⟨_, ⟨k, h1⟩, _⟩ | ⟨_, h0, _, rfl⟩ |
+      ⟨_, h0, _, rfl⟩
+    · subst h1; cases hok
+    · subst h1; cases hok
+    · subst h1; cases hok
+    · simp [h0, establish, fresh]
+    · simp [h0, establish, fresh, lose, closeClient, markDead]
+
+/-- the hypotheses of `C16_start_returns` hold in a non-trivial state: after a handshake
+    dropped between registration and configuration and a session that was established,
+    lost, and whose close notification is still in flight -/
+example : ∃ s, Reach s ∧ s.started = true ∧ s.inflight = [1, 2] ∧ s.dead = [1, 2] :=
+  ⟨_, ⟨[.start .dropCfg (.err .closed), .start .ok .ok, .connLost], by decide, rfl⟩, rfl, rfl, rfl⟩
+
+/-- Wait returns after a failed start, a stop, or a lost connection: the `doneC` of every
+    session that is over is closed (a `Wait` blocked on it is released); `Stop` is always
+    enabled and leaves the stub not started; a failed `Start` leaves it not started; a
+    connection loss puts the session's close notification in flight, that notification is
+    enabled, and when it runs the stub is not started; and whenever the stub is not started
+    `Wait` returns at once. -/
+theorem C16_wait_returns {s : State} (hr : Reach s) :
+    (∀ sid, ended s sid → sid ∈ s.done) ∧
+    (s.started = false → step? fixed s (.wait true) = some s) ∧
+    (step? fixed s .stop = some (closeStub s) ∧ (closeStub s).started = false) ∧
+    (∀ o k s', step? fixed s (.start o (.err k)) = some s' → k ≠ .already → s'.started = false) ∧
+    (∀ s', step? fixed s .connLost = some s' → s'.cur = s.cur ∧ s'.cur ∈ s'.inflight) ∧
+    (∀ sid, sid ∈ s.inflight → ∃ s', step? fixed s (.closeNotify sid) = some s' ∧
+        (sid = s.cur → s'.started = false)) := by
+  have hg := hr.good
+  have hw := hg.notWedged
+  refine ⟨?_, ?_, ?_, ?_, ?_, ?_⟩
+  · intro sid ⟨h1, h2, h3⟩; exact hg.endedDone sid h1 h2 h3
+  · intro hs; simp [step?, hw, hs]
+  · refine ⟨by simp [step?, hw], ?_⟩
+    unfold closeStub; split <;> simp_all
+  · intro o k s' h hk
+    simp only [step?, hw] at h
+    unfold startStep at h
+    by_cases hs : s.started = true
+    · simp only [hs, if_true] at h; grind
+    · have hs' : s.started = false := by simpa using hs
+      have hc := hg.connNone hs'
+      simp only [hs', hc] at h
+      cases o <;> simp [fixed, failStart, closeClient, markDead] at h <;> grind
+  · intro s' h
+    simp only [step?, hw] at h
+    simp at h
+    obtain ⟨ha, rfl⟩ := h
+    simp only [alive] at ha
+    simp [lose, closeClient, markDead]; grind
+  · intro sid hin
+    refine ⟨_, by simp [step?, hw, hin]; rfl, ?_⟩
+    intro hc
+    simp only [fixed, hc]
+    simp
+    unfold closeStub; split <;> simp_all
+
+/-- non-vacuity: a state with an ended session, an inflight notification of the current
+    session (connection lost) -/
+example : ∃ s, Reach s ∧ ended s 1 ∧ s.cur ∈ s.inflight ∧ s.started = true :=
+  ⟨_, ⟨[.start .refuse (.err .register), .start .ok .ok, .connLost], by decide, rfl⟩,
+    by decide, by decide, by decide⟩
+
+/-- onClose fires exactly once per session: never twice; for every session that is over the
+    callback has either run once or its one notification is still in flight; nothing has
+    fired or is pending for a live session; and the pending notifications can always all be
+    delivered (in list order), after which every session that is over has fired exactly
+    once. -/
+theorem C16_onclose_once {s : State} (hr : Reach s) :
+    (∀ sid, s.fired.count sid ≤ 1) ∧
+    (∀ sid, ended s sid → s.fired.count sid + s.inflight.count sid = 1) ∧
+    (alive s = true → s.fired.count s.cur = 0 ∧ s.inflight.count s.cur = 0) ∧
+    (∃ s', run fixed s (s.inflight.map .closeNotify) = some s' ∧ Reach s' ∧ s'.inflight = [] ∧
+        ∀ sid, ended s' sid → s'.fired.count sid = 1) := by
+  have hg := hr.good
+  refine ⟨?_, ?_, ?_, ?_⟩
+  · exact List.nodup_iff_count.mp hg.fired_nodup
+  · intro sid ⟨h1, h2, h3⟩
+    rw [hg.fired_nodup.count, hg.infl_nodup.count]
+    have := hg.endedClosed sid h1 h2 h3
+    have := hg.disj sid
+    grind
+  · intro ha
+    simp only [alive] at ha
+    rw [hg.fired_nodup.count, hg.infl_nodup.count]
+    grind
+  · obtain ⟨s', h1, h2, h3⟩ := drain hr
+    refine ⟨s', h1, h2, h3, ?_⟩
+    intro sid ⟨h4, h5, h6⟩
+    have hg' := h2.good
+    rw [hg'.fired_nodup.count]
+    have := hg'.endedClosed sid h4 h5 h6
+    simp [h3] at this
+    simp [this]
+
+/-- non-vacuity: three sessions over (one fired, two in flight), none live -/
+example : ∃ s, Reach s ∧ ended s 1 ∧ ended s 3 ∧ s.inflight = [2, 3] ∧ s.fired = [1] :=
+  ⟨_, ⟨[.start .ok .ok, .stop, .closeNotify 1, .start .cfgErr (.err .configure), .start .ok .ok,
+        .stop], by decide, rfl⟩, by decide, by decide, rfl, rfl⟩
+
+/-- Restartable: whenever the stub is not started (after a failed start, a stop, or the
+    close notification of a lost session — see `C16_wait_returns`), a `Start` against a
+    healthy runtime end succeeds, on a connection dialled by that very call and not closed,
+    with a new session, and requests from the runtime end are answered. -/
+theorem C16_restartable {s : State} (hr : Reach s) (hs : s.started = false) :
+    ∃ s', step? fixed s (.start .ok .ok) = some s' ∧ s'.started = true ∧
+      s'.conn = some (s.dials + 1) ∧ s'.dials = s.dials + 1 ∧ s.dials + 1 ∉ s'.dead ∧
+      s'.cur = s.cur + 1 ∧ alive s' = true ∧
+      step? fixed s' (.dispatch true) = some s' ∧ step? fixed s' (.dispatch false) = none := by
+  have hg := hr.good
+  have hw := hg.notWedged
+  have hc := hg.connNone hs
+  have hd : s.dials + 1 ∉ s.dead := by intro hm; have := hg.dead_rng _ hm; omega
+  have h1 : s.cur + 1 ∉ s.inflight := by intro hm; have := hg.infl_rng _ hm; omega
+  have h2 : s.cur + 1 ∉ s.fired := by intro hm; have := hg.fired_rng _ hm; omega
+  refine ⟨_, by simp [step?, hw, startStep, hs, hc, connDead, hd]; rfl, ?_⟩
+  simp [establish, alive, step?, hd, h1, h2]
+
+/-- … and from ANY reachable state a not-started state is one `Stop` away, so the sequence
+    Stop, Start (healthy runtime end), request is always possible and ends with the stub
+    started. -/
+theorem C16_restartable_from_any {s : State} (hr : Reach s) :
+    ∃ s', run fixed s [.stop, .start .ok .ok, .dispatch true] = some s' ∧ s'.started = true ∧
+      alive s' = true := by
+  have hw := hr.good.notWedged
+  have h1 : step? fixed s .stop = some (closeStub s) := by simp [step?, hw]
+  have hr1 : Reach (closeStub s) := hr.step (by rfl) h1
+  have hs1 : (closeStub s).started = false := by unfold closeStub; split <;> simp_all
+  obtain ⟨s', h2, h3, _, _, _, _, h4, h5, _⟩ := C16_restartable hr1 hs1
+  exact ⟨s', by simp [run, h1, h2, h5], h3, h4⟩
+
+example : ∃ s, Reach s ∧ s.started = false ∧ s.inflight = [1, 2] :=
+  ⟨_, ⟨[.start .dropReg (.err .register), .start .dropLate .ok, .stop], by decide, rfl⟩, rfl, rfl⟩
+
+/-- A late close notification of an earlier session leaves the current session untouched:
+    it only records that `onClose` ran for that earlier session. -/
+theorem C16_stale_notify {s : State} (hr : Reach s) (sid : Nat) (hin : sid ∈ s.inflight)
+    (hne : sid ≠ s.cur) :
+    step? fixed s (.closeNotify sid) =
+      some { s with inflight := s.inflight.erase sid, fired := s.fired ++ [sid] } := by
+  have hw := hr.good.notWedged
+  simp [step?, hw, hin, fixed, hne]
+
+/-- Consequently an established, live session ends only by `Stop` or by the loss of its own
+    connection: every other step (any `Start`, `Wait`, requests, the close notification of
+    ANY session) leaves it the current session, started and alive. -/
+theorem C16_live_session_stable {s s' : State} {e : Event} (hr : Reach s) (ha : alive s = true)
+    (h : step? fixed s e = some s') (h1 : e ≠ .stop) (h2 : e ≠ .connLost) :
+    alive s' = true ∧ s'.cur = s.cur ∧ s'.started = true ∧ s'.conn = s.conn := by
+  have hg := hr.good
+  have hw := hg.notWedged
+  have hs : s.started = true := by simp only [alive] at ha; grind
+  cases e with
+  | start o r =>
+    simp only [step?, hw, startStep, hs] at h
+    have : s' = s := by grind
+    subst this; exact ⟨ha, rfl, hs, rfl⟩
+  | stop => exact absurd rfl h1
+  | connLost => exact absurd rfl h2
+  | closeNotify sid =>
+    have hne : sid ∈ s.inflight → sid ≠ s.cur := by simp only [alive] at ha; grind
+    simp only [step?, hw] at h
+    by_cases hin : sid ∈ s.inflight
+    · simp [hin, fixed, hne hin] at h
+      subst h
+      simp only [alive] at ha ⊢
+      have := hne hin
+      have e1 : ∀ x, x ∈ s.inflight.erase sid → x ∈ s.inflight := fun x hx => List.mem_of_mem_erase hx
+      refine ⟨?_, by simp, by simp [hs], by simp⟩
+      grind
+    · simp [hin] at h
+  | wait ret =>
+    simp only [step?, hw] at h
+    have : s' = s := by grind
+    subst this; exact ⟨ha, rfl, hs, rfl⟩
+  | dispatch ok =>
+    simp only [step?] at h
+    have : s' = s := by grind
+    subst this; exact ⟨ha, rfl, hs, rfl⟩
+
+/-- non-vacuity: session 2 is live while the notification of session 1 is still in flight -/
+example : ∃ s, Reach s ∧ 1 ∈ s.inflight ∧ 1 ≠ s.cur ∧ alive s = true :=
+  ⟨_, ⟨[.start .ok .ok, .stop, .start .ok .ok], by decide, rfl⟩, by decide, by decide, by decide⟩
+
+/-- The acceptance automaton of the driver (`closure`: deliver pending notifications in any
+    order, let the pending observed operation take effect) derives only reachable states from
+    reachable states: whatever observed history it accepts is explained by a run of the
+    repaired machine, and every theorem above applies to every configuration it holds. -/
+theorem C16_trace_sound (p : Option OpObs) (hp : ∀ pd, p = some pd → pd.inDomain = true)
+    (fuel : Nat) (cs : List Cfg) (h : AllCfg Reach cs) : AllCfg Reach (closure p cs fuel) :=
+  closure_reach p hp fuel cs h
+
+/-- non-vacuity: the automaton's start configuration; and a closure that really moves (the
+    pending Stop applied, then the notification it caused delivered) -/
+example : AllCfg Reach [{ s := init, applied := true }] := by
+  intro c hc; simp at hc; subst hc; exact init_reach
+example : (closure (some .stop)
+    [{ s := (establish (fresh init)), applied := false }] 8).length = 3 := by decide
+
+/-! ### The code before the patch (witnesses; `unfixed` = all three repairs absent) -/
+
+/-- The one part of C16 that holds in EVERY variant — also of the code before the patch, and
+    also after a `stall`: no session's `onClose` fires twice, a session whose callback ran has
+    no further notification pending, and only sessions that exist are notified. (What the
+    code before the patch does not give is "at least once": `unfixed_start_blocks`.) -/
+theorem C16_onclose_atmost_once_any (v : Variant) (h : List Event) (s : State)
+    (hr : run v init h = some s) (sid : Nat) :
+    s.fired.count sid ≤ 1 ∧ s.fired.count sid + s.inflight.count sid ≤ 1 ∧
+    (sid ∈ s.fired ∨ sid ∈ s.inflight → 1 ≤ sid ∧ sid ≤ s.cur) := by
+  have hb := (book'_run v book'_init h hr).toBook
+  refine ⟨List.nodup_iff_count.mp hb.fired_nodup sid, ?_, ?_⟩
+  · rw [hb.fired_nodup.count, hb.infl_nodup.count]
+    have := hb.disj sid
+    grind
+  · rintro (h1 | h1)
+    · exact hb.fired_rng sid h1
+    · exact hb.infl_rng sid h1
+
+example : ∃ s, run unfixed init [.start .ok .ok, .stop, .start .ok .ok, .closeNotify 1, .closeNotify 2] = some s ∧
+    s.fired = [1, 2] := ⟨_, rfl, rfl⟩
+
+/-- (a) The runtime end answers RegisterPlugin and drops the connection before configuring:
+    `Start` can block forever, holding the mutex — no call of the stub is enabled any more
+    (in particular the close notification never runs, so `onClose` never fires). -/
+theorem unfixed_start_blocks :
+    ∃ s, run unfixed init [.start .dropCfg .blocked] = some s ∧ s.wedged = true ∧ s.inflight = [1] ∧
+      (∀ o r, step? unfixed s (.start o r) = none) ∧ step? unfixed s .stop = none ∧
+      (∀ b, step? unfixed s (.wait b) = none) ∧ (∀ sid, step? unfixed s (.closeNotify sid) = none) ∧
+      run fixed init [.start .dropCfg .blocked] = none :=
+  ⟨_, rfl, rfl, rfl, fun _ _ => rfl, rfl, fun _ => rfl, fun _ => rfl, by decide⟩
+
+/-- (b) Stop, immediate restart, then the first session's close notification arrives: it
+    tears down the second session (not started, requests fail) although nobody stopped it
+    and its connection is intact. The repaired machine keeps it. -/
+theorem unfixed_stale_notify :
+    (∃ s, run unfixed init [.start .ok .ok, .stop, .start .ok .ok, .closeNotify 1] = some s ∧
+      s.started = false ∧ 2 ∈ s.estab ∧ step? unfixed s (.dispatch true) = none) ∧
+    (∃ s, run fixed init [.start .ok .ok, .stop, .start .ok .ok, .closeNotify 1] = some s ∧
+      s.started = true ∧ step? fixed s (.dispatch true) = some s) := by
+  decide
+
+/-- (c) After a failed start the dead connection stays recorded: the next `Start` dials
+    nothing and cannot succeed, however healthy the runtime end is. -/
+theorem unfixed_stale_conn :
+    ∃ s, run unfixed init [.start .refuse (.err .register)] = some s ∧
+      s.conn = some 1 ∧ 1 ∈ s.dead ∧
+      step? unfixed s (.start .ok .ok) = none ∧
+      (∃ s', step? unfixed s (.start .ok (.err .register)) = some s' ∧ s'.dials = 1 ∧ s'.started = false) ∧
+      (∃ s', run fixed init [.start .refuse (.err .register), .start .ok .ok] = some s' ∧
+        s'.started = true ∧ s'.conn = some 2) := by
+  decide
+
 end Nri.Props.C16
